@@ -228,3 +228,15 @@ Lemma multi_sample_ok :
   forallb (fun v => negb (trig_relayout_v multi_sample v || trig_split_v multi_sample v ||
                           trig_object_v multi_sample v || trig_clobber_v mc12 multi_sample v || trig_size_v mc12 multi_sample v)) [1; 2] = true.
 Proof. vm_compute; repeat split; reflexivity. Qed.
+
+(* the collector's two tests in the multi model, at their edges (limit 100, growThreshold 0.9):
+   sizes 90 / 91 around the crowded edge, 99 / 100 around the limit *)
+Definition crowded_history : list mevent :=
+  [MConnect 1 1 1; MFull 1 [mi 1 10 false 0; mi 2 10 false 0; mi 3 10 false 0; mi 4 10 false 0];
+   MFull 1 [mi 1 90 false 0; mi 2 91 false 0; mi 3 99 false 0; mi 4 100 false 0]; MCollect].
+Lemma crowded_boundary :
+  let s := mrun mc1 minit crowded_history in
+  l_writ (lay (ms_lays s) 0) = [1; 2; 3] /\ mcrowded s 0 = [2; 3] /\
+  (* a crowded vid that leaves writables leaves crowded *)
+  mcrowded (mrun mc1 minit (crowded_history ++ [MFull 1 [mi 1 90 false 0; mi 2 91 true 0; mi 3 100 false 0; mi 4 100 false 0]; MCollect])) 0 = [].
+Proof. vm_compute; repeat split; reflexivity. Qed.
